@@ -142,6 +142,13 @@ func rulePrintForm(c *core.Ctx, rule, ruleNotes string) {
 			w.ln, w.consts, w.format, w.args = false, true, format.String(), fargs
 		}
 		key := w.format + "|" + w.pos
+		for _, a := range w.args {
+			// the same line written with another kind of argument on another path (a name that is quoted only
+			// when it contains certain characters) is another write
+			if _, isT := a.(*absint.Term); isT {
+				key += "|" + a.Key()
+			}
+		}
 		if !seen[key] {
 			seen[key] = true
 			writes = append(writes, w)
